@@ -40,4 +40,190 @@ theorem calculate_chunk_num_refines (dd : List DimRec) (sbi : List Nat) (hs : sb
 example : (calculate_chunk_num 3 [0] 3 (ints [1, 2, 1]) (ints ((mkDims [5, 7, 4] [2, 3, 3]).map (·.numChunks)))).chunk_num
     = [((calculateChunkNum (mkDims [5, 7, 4] [2, 3, 3]) [1, 2, 1] : Nat) : Int)] := by decide
 
+/-- `update_chunk_indices_seek` as translated from hchunks.c fills `sbi`, `spb` (whatever they held) with the model's
+    `updateChunkIndicesSeek`; it needs `nt_size ≠ 0` and non-zero `dim_length`, `chunk_length` in every dimension (it divides by them) -/
+theorem update_chunk_indices_seek_refines (dd : List DimRec) (ntSize sloc : Nat) (outSbi outSpb : List Int)
+    (ho1 : outSbi.length = dd.length) (ho2 : outSpb.length = dd.length) (hnt : ntSize ≠ 0)
+    (hd : AllPos (dimsOf dd)) (hc : AllPos (cdimsOf dd)) :
+    let s := update_chunk_indices_seek dd.length sloc dd.length ntSize outSbi outSpb (ints (dimsOf dd)) (ints (cdimsOf dd))
+    s.ub = false ∧ s.oof = false ∧ s.sbi = ints (updateChunkIndicesSeek dd ntSize sloc).1
+      ∧ s.spb = ints (updateChunkIndicesSeek dd ntSize sloc).2 := by
+  simp only [update_chunk_indices_seek, updateChunkIndicesSeek]
+  apply ucis_loop dd (sloc / ntSize) hd hc dd.length
+  · omega
+  · omega
+  · rfl
+  · simp [update_chunk_indices_seek.chk, ucisLoop]
+  · simpa [update_chunk_indices_seek.chk] using ho1
+  · simpa [update_chunk_indices_seek.chk] using ho2
+  · simp [update_chunk_indices_seek.chk, ucisLoop]; omega
+  · simp [update_chunk_indices_seek.chk, ucisLoop]; omega
+  · rfl
+  · rfl
+  · simpa [update_chunk_indices_seek.chk] using hnt
+  · rfl
+
+/-- the hypotheses are satisfiable and the translated code runs: byte 434 of a 5x7x4 array of 4-byte elements in chunks 2x3x3 -/
+example : AllPos (dimsOf (mkDims [5, 7, 4] [2, 3, 3])) ∧ AllPos (cdimsOf (mkDims [5, 7, 4] [2, 3, 3])) ∧
+    (let s := update_chunk_indices_seek 3 434 3 4 [-1, -1, -1] [-1, -1, -1] (ints (dimsOf (mkDims [5, 7, 4] [2, 3, 3])))
+        (ints (cdimsOf (mkDims [5, 7, 4] [2, 3, 3])))
+     s.ub = false ∧ s.oof = false ∧ s.sbi = ints (updateChunkIndicesSeek (mkDims [5, 7, 4] [2, 3, 3]) 4 434).1 ∧
+       s.spb = ints (updateChunkIndicesSeek (mkDims [5, 7, 4] [2, 3, 3]) 4 434).2 ∧ s.sbi = [1, 2, 0] ∧ s.spb = [1, 0, 0]) := by decide
+
+/-- `compute_chunk_to_array` as translated from hchunks.c fills `array_indices` with the model's `computeChunkToArray`
+    (including the clamp to `last_chunk_length` in the last chunk of a dimension); no arithmetic precondition -/
+theorem compute_chunk_to_array_refines (dd : List DimRec) (sbi spb : List Nat) (out : List Int)
+    (hs : sbi.length = dd.length) (hp : spb.length = dd.length) (ho : out.length = dd.length) :
+    let s := compute_chunk_to_array dd.length (ints sbi) (ints spb) out dd.length (ints (cdimsOf dd)) (ints (nchunksOf dd))
+      (ints (dd.map (·.lastChunkLength)))
+    s.ub = false ∧ s.oof = false ∧ s.array_indices = ints (computeChunkToArray dd sbi spb) := by
+  simp only [compute_chunk_to_array]
+  apply c2a_loop dd sbi spb hs hp dd.length
+  · omega
+  · omega
+  · simp
+  · rfl
+  · exact ho
+  · simp
+  all_goals rfl
+
+/-- the translated code runs through all three paths: dimension 0 is in its last chunk (5 = 2+2+1) without clamp, dimension 1 is in its
+    last chunk (7 = 3+3+1) and position 2 is clamped to `last_chunk_length` = 1, dimension 2 is not in its last chunk -/
+example :
+    (let s := compute_chunk_to_array 3 (ints [2, 2, 0]) (ints [1, 2, 2]) [-1, -1, -1] 3 (ints (cdimsOf (mkDims [5, 7, 4] [2, 3, 3])))
+        (ints (nchunksOf (mkDims [5, 7, 4] [2, 3, 3]))) (ints ((mkDims [5, 7, 4] [2, 3, 3]).map (·.lastChunkLength)))
+     s.ub = false ∧ s.oof = false ∧ s.array_indices = ints (computeChunkToArray (mkDims [5, 7, 4] [2, 3, 3]) [2, 2, 0] [1, 2, 2]) ∧
+       s.array_indices = [5, 7, 2]) := by decide
+
+/-- `compute_array_to_seek` as translated from hchunks.c computes the model's `computeArrayToSeek`; it reads `array_indices[ndims-1]`,
+    so the rank must be positive -/
+theorem compute_array_to_seek_refines (dd : List DimRec) (ntSize : Nat) (arr : List Nat) (ha : arr.length = dd.length)
+    (hne : dd ≠ []) (out : Int) :
+    let s := compute_array_to_seek dd.length [out] (ints arr) ntSize dd.length (ints (dimsOf dd))
+    s.ub = false ∧ s.oof = false ∧ s.user_seek = [((computeArrayToSeek dd ntSize arr : Nat) : Int)] := by
+  have hl : 0 < dd.length := List.length_pos_iff.mpr hne
+  simp only [compute_array_to_seek, computeArrayToSeek]
+  by_cases h1 : (dd.length : Int) > 1
+  · simp only [compute_array_to_seek.chk, h1, if_true]
+    generalize hS : compute_array_to_seek.loop0 _ _ = t
+    have H : t.ub = false ∧ t.oof = false ∧ t.user_seek = [(((lin (dimsOf dd) arr).2 : Nat) : Int)] ∧ t.nt_size = (ntSize : Int) := by
+      rw [← hS]
+      apply cats_loop (dimsOf dd) arr (by simpa using ha) (dd.length - 1)
+      all_goals (try simp)
+      · omega
+      · omega
+      · have : List.drop (dd.length - 1 + 1) (List.map (fun x => x.dimLength) dd) = [] := by simp; omega
+        simp [this]
+      · rw [lin_last (dimsOf dd) arr (dd.length - 1) (by simp; omega) (by omega)]
+      · omega
+    obtain ⟨hub, hoof, hus, hnt⟩ := H
+    simp [hub, hoof, hus, hnt]
+  · have h : dd.length = 1 := by omega
+    have := lin_last (dimsOf dd) arr 0 (by simp; omega) (by omega)
+    simp at this
+    simp [compute_array_to_seek.chk, h, this]
+    omega
+
+/-- the translated code runs: element (3,6,2) of a 5x7x4 array of 4-byte elements is at byte ((3*7+6)*4+2)*4 = 440 -/
+example :
+    (let s := compute_array_to_seek 3 [-1] (ints [3, 6, 2]) 4 3 (ints (dimsOf (mkDims [5, 7, 4] [2, 3, 3])))
+     s.ub = false ∧ s.oof = false ∧ s.user_seek = [((computeArrayToSeek (mkDims [5, 7, 4] [2, 3, 3]) 4 [3, 6, 2] : Nat) : Int)] ∧
+       s.user_seek = [440]) := by decide
+
+/-- `calculate_seek_in_chunk` as translated from hchunks.c computes the model's `calculateSeekInChunk` (rank positive: reads `spb[ndims-1]`) -/
+theorem calculate_seek_in_chunk_refines (dd : List DimRec) (ntSize : Nat) (spb : List Nat) (ha : spb.length = dd.length)
+    (hne : dd ≠ []) (out : Int) :
+    let s := calculate_seek_in_chunk dd.length [out] dd.length ntSize (ints spb) (ints (cdimsOf dd))
+    s.ub = false ∧ s.oof = false ∧ s.chunk_seek = [((calculateSeekInChunk dd ntSize spb : Nat) : Int)] := by
+  have hl : 0 < dd.length := List.length_pos_iff.mpr hne
+  simp only [calculate_seek_in_chunk, calculateSeekInChunk]
+  by_cases h1 : (dd.length : Int) > 1
+  · simp only [calculate_seek_in_chunk.chk, h1, if_true]
+    generalize hS : calculate_seek_in_chunk.loop0 _ _ = t
+    have H : t.ub = false ∧ t.oof = false ∧ t.chunk_seek = [(((lin (cdimsOf dd) spb).2 : Nat) : Int)] ∧ t.nt_size = (ntSize : Int) := by
+      rw [← hS]
+      apply csic_loop (cdimsOf dd) spb (by simpa using ha) (dd.length - 1)
+      all_goals (try simp)
+      · omega
+      · omega
+      · have : List.drop (dd.length - 1 + 1) (List.map (fun x => x.chunkLength) dd) = [] := by simp; omega
+        simp [this]
+      · rw [lin_last (cdimsOf dd) spb (dd.length - 1) (by simp; omega) (by omega)]
+      · omega
+    obtain ⟨hub, hoof, hus, hnt⟩ := H
+    simp [hub, hoof, hus, hnt]
+  · have h : dd.length = 1 := by omega
+    have := lin_last (cdimsOf dd) spb 0 (by simp; omega) (by omega)
+    simp at this
+    simp [calculate_seek_in_chunk.chk, h, this]
+    omega
+
+/-- the translated code runs: position (1,2,1) in a 2x3x3 chunk of 4-byte elements is at byte ((1*3+2)*3+1)*4 = 64 -/
+example :
+    (let s := calculate_seek_in_chunk 3 [-1] 3 4 (ints [1, 2, 1]) (ints (cdimsOf (mkDims [5, 7, 4] [2, 3, 3])))
+     s.ub = false ∧ s.oof = false ∧ s.chunk_seek = [((calculateSeekInChunk (mkDims [5, 7, 4] [2, 3, 3]) 4 [1, 2, 1] : Nat) : Int)] ∧
+       s.chunk_seek = [64]) := by decide
+
+/-- `update_seek_pos_chunk` as translated from hchunks.c fills `spb` with the model's `updateSeekPosChunk`; it needs `nt_size ≠ 0` and
+    non-zero `chunk_length` in every dimension -/
+theorem update_seek_pos_chunk_refines (dd : List DimRec) (ntSize chunkSeek : Nat) (out : List Int)
+    (ho : out.length = dd.length) (hnt : ntSize ≠ 0) (hc : AllPos (cdimsOf dd)) :
+    let s := update_seek_pos_chunk dd.length chunkSeek dd.length ntSize out (ints (cdimsOf dd))
+    s.ub = false ∧ s.oof = false ∧ s.spb = ints (updateSeekPosChunk dd ntSize chunkSeek) := by
+  simp only [update_seek_pos_chunk, updateSeekPosChunk]
+  apply uspc_loop dd (chunkSeek / ntSize) hc dd.length
+  · omega
+  · omega
+  · rfl
+  · simp [update_seek_pos_chunk.chk, uspcLoop]
+  · simpa [update_seek_pos_chunk.chk] using ho
+  · simp [update_seek_pos_chunk.chk, uspcLoop]; omega
+  · rfl
+  · simpa [update_seek_pos_chunk.chk] using hnt
+  · rfl
+
+/-- the hypotheses are satisfiable and the translated code runs: byte 52 = element 13 of a 2x3x3 chunk is position (1,1,1) -/
+example : AllPos (cdimsOf (mkDims [5, 7, 4] [2, 3, 3])) ∧
+    (let s := update_seek_pos_chunk 3 52 3 4 [-1, -1, -1] (ints (cdimsOf (mkDims [5, 7, 4] [2, 3, 3])))
+     s.ub = false ∧ s.oof = false ∧ s.spb = ints (updateSeekPosChunk (mkDims [5, 7, 4] [2, 3, 3]) 4 52) ∧ s.spb = [1, 1, 1]) := by decide
+
+/-- `calculate_chunk_for_chunk` as translated from hchunks.c computes the model's (signed) `calculateChunkForChunk`; it reads index
+    `ndims-1` of `sbi`, `spb`, `ddims`, so the rank must be positive -/
+theorem calculate_chunk_for_chunk_refines (dd : List DimRec) (ntSize len done : Nat) (sbi spb : List Nat)
+    (hs : sbi.length = dd.length) (hp : spb.length = dd.length) (hne : dd ≠ []) (out : Int) :
+    let s := calculate_chunk_for_chunk dd.length [out] dd.length ntSize len done (ints sbi) (ints spb)
+      (ints (nchunksOf dd)) (ints (dd.map (·.lastChunkLength))) (ints (cdimsOf dd))
+    s.ub = false ∧ s.oof = false ∧ s.chunk_size = [calculateChunkForChunk dd ntSize len done sbi spb] := by
+  have hl : 0 < dd.length := List.length_pos_iff.mpr hne
+  have hm : dd.length - 1 < dd.length := by omega
+  have e1 : ((dd.length : Int) - 1).toNat = dd.length - 1 := by omega
+  have hb : 0 ≤ (dd.length : Int) - 1 ∧ (dd.length : Int) - 1 < (dd.length : Int) := by omega
+  have g1 : dd.getLastD default = dd[dd.length - 1] := by
+    rw [getLastD_eq_getD dd default hne]; simp [hm]
+  have g2 : sbi.getLastD 0 = sbi[dd.length - 1]?.getD 0 := by
+    rw [getLastD_eq_getD sbi 0 (by intro h; simp [h] at hs; omega), hs]
+  have g3 : spb.getLastD 0 = spb[dd.length - 1]?.getD 0 := by
+    rw [getLastD_eq_getD spb 0 (by intro h; simp [h] at hp; omega), hp]
+  have hv1 := ints_map_getD (·.numChunks) dd _ hm
+  have hv2 := ints_map_getD (·.lastChunkLength) dd _ hm
+  have hv3 := ints_map_getD (·.chunkLength) dd _ hm
+  have hv4 : (ints sbi).getD (dd.length - 1) 0 = ((sbi[dd.length - 1]?.getD 0 : Nat) : Int) := by simp
+  have hv5 : (ints spb).getD (dd.length - 1) 0 = ((spb[dd.length - 1]?.getD 0 : Nat) : Int) := by simp
+  simp only [calculate_chunk_for_chunk, calculateChunkForChunk, g1, g2, g3, calculate_chunk_for_chunk.chk, e1, hv1, hv2, hv3, hv4, hv5,
+    ints_length, List.length_map, hs, hp, hb]
+  by_cases hc : sbi[dd.length - 1]?.getD 0 + 1 = dd[dd.length - 1].numChunks
+  · have hc' : ((sbi[dd.length - 1]?.getD 0 : Nat) : Int) = ((dd[dd.length - 1].numChunks : Nat) : Int) - 1 := by omega
+    simp only [eq_true hc', if_true]
+    split <;> simp_all
+  · have hc' : ¬ ((sbi[dd.length - 1]?.getD 0 : Nat) : Int) = ((dd[dd.length - 1].numChunks : Nat) : Int) - 1 := by omega
+    simp only [eq_false hc', if_false]
+    split <;> simp_all
+
+/-- the translated code runs: last chunk of the fastest dimension (4 = 3+1), the rest of the row is 1 element = 4 bytes of the 100 asked for -/
+example :
+    (let s := calculate_chunk_for_chunk 3 [-1] 3 4 100 0 (ints [1, 2, 1]) (ints [0, 0, 0]) (ints (nchunksOf (mkDims [5, 7, 4] [2, 3, 3])))
+        (ints ((mkDims [5, 7, 4] [2, 3, 3]).map (·.lastChunkLength))) (ints (cdimsOf (mkDims [5, 7, 4] [2, 3, 3])))
+     s.ub = false ∧ s.oof = false ∧ s.chunk_size = [calculateChunkForChunk (mkDims [5, 7, 4] [2, 3, 3]) 4 100 0 [1, 2, 1] [0, 0, 0]] ∧
+       s.chunk_size = [4]) := by decide
+
 end H4.Props.C04Fn
